@@ -5,7 +5,7 @@ package app
 // Contracts for govc (see /verif/DESIGN.md). Comment-only file: no executable code.
 
 // ---------- lock discipline helpers ----------
-//@ define unlocked(p *Process) bool = !held(p.Mutex) && !held(p.confMtx) && !held(p.stateMtx) && !held(p.timeMutex) && !held(p.mtxStopFn)
+//@ define unlocked(p *Process) bool = !held(p.Mutex) && !held(p.confMtx) && !held(p.stateMtx) && !held(p.timeMutex) && !held(p.mtxStopFn) && !held(p.logBuffer.mx)
 
 // ---------- C02: restart policy ----------
 //@ define restartSpec(stopped bool, restart string, exit int, restarts int, max int) bool =
@@ -80,7 +80,7 @@ package app
 //@   assigns nothing
 
 // ---------- process object invariant (established by NewProcess) ----------
-//@ define procWF(p *Process) bool = p.procConf != nil && p.procState != nil &&
+//@ define procWF(p *Process) bool = p.procConf != nil && p.procState != nil && p.logBuffer != nil && bufWF(p.logBuffer) &&
 //@    cancelOf(p.runCancelFn) == p.procRunCtx && cancelOf(p.readyCancelFn) == p.procReadyCtx && cancelOf(p.readyLogCancelFn) == p.procLogReadyCtx &&
 //@    p.procRunCtx != p.procReadyCtx && p.procRunCtx != p.procLogReadyCtx && p.procReadyCtx != p.procLogReadyCtx &&
 //@    closeOnly(p.procStartedChan)
@@ -109,7 +109,7 @@ package app
 //@ func (p *Process) waitForStarted
 //@   requires procWF(p)
 //@   ensures closed(p.procStartedChan) || cancelled(p.procRunCtx)
-//@   assigns slept()
+//@   assigns slept(), lastWait()
 
 // ---------- life-cycle steps ----------
 //@ define isDefinedStr(s string) bool = len(trimSpace(s)) > 0
@@ -128,7 +128,7 @@ package app
 //@   assigns health.Prober.stopped[*]
 
 //@ func (p *Process) notifyDaemonStopped
-//@   assigns slept()
+//@   assigns slept(), lastWait()
 
 //@ func (p *Process) isDaemonLaunched
 //@   ensures result <==> (p.procConf.IsDaemon && p.procState.ExitCode == 0)
@@ -239,11 +239,11 @@ package app
 //@ define attachedIo(p *Process) bool = p.isMain || (p.procConf.IsElevated && !p.isTuiEnabled)
 
 //@ func (p *Process) getProcessStarter$1
-//@   ensures one-start: starts() == old(starts()) + 1
+//@   ensures one-start: starts() == old(starts()) + 1 && startAfterWait(old(starts())) == lastWait()
 //@   ensures env: cmdEnv(p.command) == lastProcEnv() && cmdDir(p.command) == p.procConf.WorkingDir
 //@   ensures pgrp: !attachedIo(p) ==> pgrpSet(p.command)
 //@   ensures streams: !attachedIo(p) ==> p.stdOutDone != nil && (!p.procConf.IsTty ==> p.stdErrDone != nil)
-//@   assigns p.command, p.stdOutDone, p.stdErrDone, p.stdin, starts(), cmdEnv[*], cmdDir[*], pgrpSet[*], lastProcEnv(), spawned[*]
+//@   assigns p.command, p.stdOutDone, p.stdErrDone, p.stdin, starts(), startAfterWait(starts()), cmdEnv[*], cmdDir[*], pgrpSet[*], lastProcEnv(), spawned[*]
 
 //@ func (p *Process) getProcessStarter
 //@   ensures isclosure(result, "(*app.Process).getProcessStarter$1") && captured(result, "(*app.Process).getProcessStarter$1", "p") == p
@@ -253,19 +253,54 @@ package app
 //@   requires !held(p.stateMtx) && !held(p.confMtx)
 //@   requires starter: isclosure(runnable, "(*app.Process).getProcessStarter$1") && captured(runnable, "(*app.Process).getProcessStarter$1", "p") == p
 //@   param runnable as (*app.Process).getProcessStarter$1
-//@   ensures launched: starts() == old(starts()) + 1
+//@   ensures launched: starts() == old(starts()) + 1 && startAfterWait(old(starts())) == lastWait()
 //@   ensures status: p.procState.Status == state
 //@   ensures forget: (state == "Restarting" || state == "Launching" || state == "Terminating") ==> p.procState.Health == "-"
 //@   ensures keepexit: state != "Skipped" ==> p.procState.ExitCode == old(p.procState.ExitCode)
 //@   ensures env: cmdEnv(p.command) == lastProcEnv() && cmdDir(p.command) == p.procConf.WorkingDir
 //@   ensures streams: !attachedIo(p) ==> p.stdOutDone != nil && (!p.procConf.IsTty ==> p.stdErrDone != nil)
 //@   ensures !held(p.stateMtx) && !held(p.confMtx)
-//@   assigns p.procState.Status, p.procState.ExitCode, p.procState.Health, p.command, p.stdOutDone, p.stdErrDone, p.stdin, starts(), cmdEnv[*], cmdDir[*], pgrpSet[*], lastProcEnv(), spawned[*]
+//@   assigns p.procState.Status, p.procState.ExitCode, p.procState.Health, p.command, p.stdOutDone, p.stdErrDone, p.stdin, starts(), startAfterWait(starts()), cmdEnv[*], cmdDir[*], pgrpSet[*], lastProcEnv(), spawned[*]
 
 //@ func (p *Process) waitForStdOutErr
 //@   param cancel as cancelfunc
-//@   assigns p.stdOutDone, p.stdErrDone, slept(), ctxCount(), lastTimeout()
+//@   assigns p.stdOutDone, p.stdErrDone, slept(), lastWait(), ctxCount(), lastTimeout()
 
 //@ func (p *Process) waitForDaemonCompletion
-//@   assigns slept()
+//@   assigns slept(), lastWait()
 //@   loop 1 invariant true
+
+//@ func (p *Process) handleInfo
+//@   param procColor as noeffectfunc
+//@   requires !held(p.logBuffer.mx) && bufWF(p.logBuffer)
+//@   ensures !held(p.logBuffer.mx) && bufWF(p.logBuffer)
+//@   assigns logged[*], observed[*], pclog.ProcessLogBuffer.buffer[*], heap(Elem.Str), acquires[*]
+//@ func (p *Process) validateProcess
+//@   assigns nothing
+
+// C02/C03/C09: the supervision loop of one process instance.
+//@ func (p *Process) run
+//@   requires procWF(p) && unlocked(p)
+//@   ensures stopped-before-start: old(p.procState.Status) == "Terminating" ==> starts() == old(starts()) && result == 0
+//@   ensures launches: starts() - old(starts()) <= p.procState.Restarts - old(p.procState.Restarts) + 1
+//@   ensures restarts-mono: p.procState.Restarts >= old(p.procState.Restarts)
+//@   ensures backoff: forall i int :: old(starts()) < i && i < starts() ==> startAfterWait(i) >= ite(p.procConf.RestartPolicy.BackoffSeconds > 1, p.procConf.RestartPolicy.BackoffSeconds, 1) * 1000000000
+//@   ensures ended: old(p.procState.Status) != "Terminating" ==> p.done && (p.procState.Status == "Completed" || p.procState.Status == "Error") && !p.procState.IsRunning
+//@   ensures released: old(p.procState.Status) != "Terminating" ==> cancelled(p.procReadyCtx) && cancelled(p.procLogReadyCtx) && (closed(p.procStartedChan) || cancelled(p.procRunCtx))
+//@   ensures error-code: p.procState.Status == "Error" ==> result != 0
+//@   ensures error-exitcode: p.procState.Status == "Error" ==> p.procState.ExitCode != 0
+//@   ensures unlocked(p)
+//@   loop 1 invariant procWF(p) && unlocked(p)
+//@   loop 1 invariant starts() - old(starts()) == p.procState.Restarts - old(p.procState.Restarts)
+//@   loop 1 invariant forall i int :: old(starts()) < i && i < starts() ==> startAfterWait(i) >= ite(p.procConf.RestartPolicy.BackoffSeconds > 1, p.procConf.RestartPolicy.BackoffSeconds, 1) * 1000000000
+//@   loop 1 invariant starts() > old(starts()) ==> lastWait() >= ite(p.procConf.RestartPolicy.BackoffSeconds > 1, p.procConf.RestartPolicy.BackoffSeconds, 1) * 1000000000
+//@   loop 1 invariant p.procState.Restarts >= old(p.procState.Restarts)
+//@   loop 1 invariant p.procConf == old(p.procConf) && p.procConf.RestartPolicy.BackoffSeconds == old(p.procConf.RestartPolicy.BackoffSeconds)
+//@   loop 1 invariant old(p.procState.Status) != "Terminating"
+
+//@ func (p *Process) handleError
+//@   param procColor as noeffectfunc
+//@   param redColor as noeffectfunc
+//@   requires !held(p.logBuffer.mx) && bufWF(p.logBuffer)
+//@   ensures !held(p.logBuffer.mx) && bufWF(p.logBuffer)
+//@   assigns logged[*], observed[*], pclog.ProcessLogBuffer.buffer[*], heap(Elem.Str), acquires[*]
